@@ -536,6 +536,15 @@ def run_shard(args):
             for p in run_nested_join(seed * 23 + i):
                 oracle_bad.append({'desc': p['desc'], 'diffs': [['nested-join', p['msg']]]})
         stats['nested_join_cases'] = max(2, n // 3)
+        for i in range(max(2, n // 3)):
+            for p in run_tuple_key_join(seed * 53 + i):
+                oracle_bad.append({'desc': p['desc'], 'diffs': [['tuple-key-join', p['msg']]]})
+        stats['tuple_key_join_cases'] = max(2, n // 3)
+    if kinds and 'groupby' in kinds:
+        for i in range(max(2, n // 4)):
+            for p in run_typed_groupby(seed * 59 + i):
+                oracle_bad.append({'desc': p['desc'], 'diffs': [['typed-groupby', p['msg']]]})
+        stats['typed_groupby_cases'] = max(2, n // 4)
     if kinds and 'split' in kinds:
         for i in range(max(2, n // 4)):
             for p in run_typed_split(seed * 43 + i):
@@ -640,4 +649,75 @@ def run_checkids_widen(seed):
                                                f'(a field guarded by CheckIds raises KeyError for every key outside the ids it saw)'})
     except Exception as e:
         problems.append({'desc': d, 'msg': 'CheckIds/widen scenario raised ' + exc_name(e) + ': ' + str(e)[:150]})
+    return problems
+
+
+def run_tuple_key_join(seed):
+    """Join on ONE field whose values are tuples (a (patient, study) pair): the ids of the join are those tuples (the default `to_key` of a single
+    field is the value itself), by mode; every field is served from the matching rows (C16)"""
+    rng = random.Random(seed)
+    paths_ = __import__('cv.paths', fromlist=['x'])
+    paths_.use_repo()
+    import connectome as c
+    keys = [('p%d' % (k // 2), 's%d' % (k % 2)) for k in range(6)]
+    lk = rng.sample(keys, rng.randint(2, 4))
+    rk = rng.sample(keys, rng.randint(2, 4))
+    lids = [f'l{j}' for j in range(len(lk))]
+    rids = [f'r{j}' for j in range(len(rk))]
+    lmap, rmap = dict(zip(lids, lk)), dict(zip(rids, rk))
+    one = rng.random() < 0.3
+    if one:
+        lmap = {i: (v[0],) for i, v in lmap.items()}
+        rmap = {i: (v[0],) for i, v in rmap.items()}
+        if len(set(lmap.values())) < len(lmap) or len(set(rmap.values())) < len(rmap):
+            return []
+    left = c.Transform(ids=c.meta(lambda: tuple(lids)), id=lambda id: id, pair=lambda id: lmap[id], x=lambda id: 'x-' + id)
+    right = c.Transform(ids=c.meta(lambda: tuple(rids)), id=lambda id: id, pair=lambda id: rmap[id], z=lambda id: 'z-' + id)
+    problems = []
+    how = rng.choice(['inner', 'left', 'right', 'outer'])
+    try:
+        j = c.Join(left, right, 'pair', how=how)
+        ls, rs = set(lmap.values()), set(rmap.values())
+        want = {'inner': ls & rs, 'left': ls, 'right': rs, 'outer': ls | rs}[how]
+        got = tuple(j.ids)
+        if got != tuple(sorted(want)):
+            problems.append({'desc': {'left': lmap, 'right': rmap, 'how': how},
+                             'msg': f'Join(how={how!r}) on one tuple-valued field: ids {got[:4]!r}..., the keys chosen by the mode are {sorted(want)[:4]!r}...'})
+            return problems
+        inv_l = {v: i for i, v in lmap.items()}
+        for key in sorted(ls & rs)[:3]:
+            if j.pair(key) != key or j.x(key) != 'x-' + inv_l[key]:
+                problems.append({'desc': {'left': lmap, 'right': rmap, 'how': how}, 'msg': f'Join on a tuple-valued field: fields of {key!r} are {j.pair(key)!r}, {j.x(key)!r}'})
+                break
+    except Exception as e:
+        problems.append({'desc': {'left': lmap, 'right': rmap, 'how': how}, 'msg': 'Join on a tuple-valued field raised ' + exc_name(e) + ': ' + str(e)[:150]})
+    return problems
+
+
+def run_typed_groupby(seed):
+    """GroupBy('f') by a field whose values are tuples / lists of strings (the key is `to_key(value)`): the grouped field `f` itself, like
+    every other field, maps the old ids of the group to their OLD values (C17)"""
+    rng = random.Random(seed)
+    from . import paths as paths_
+    paths_.use_repo()
+    import connectome as c
+    ids = [f'i{k}' for k in range(rng.randint(2, 5))]
+    shape = rng.choice(['one', 'pair', 'list'])
+    val = {i: {'one': ('g%d' % (n % 2),), 'pair': ('g%d' % (n % 2), 'low'), 'list': ['g%d' % (n % 2)]}[shape] for n, i in enumerate(ids)}
+    src = c.Transform(ids=c.meta(lambda: tuple(ids)), id=lambda id: id, label=lambda id: val[id], x=lambda id: 'x-' + id)
+    problems = []
+    try:
+        g = src >> c.GroupBy('label')
+        for key in g.ids:
+            got = g.label(key)
+            members = sorted(got)
+            if any(got[i] != val[i] for i in members) or g.x(key) != {i: 'x-' + i for i in members}:
+                problems.append({'desc': {'values': val}, 'msg': f'GroupBy("label") with {shape}-valued labels: label({key!r}) = {got!r}, '
+                                                                 f'the old values are { {i: val[i] for i in members}!r}'})
+                break
+        allm = sorted(i for key in g.ids for i in g.label(key))
+        if allm != sorted(ids):
+            problems.append({'desc': {'values': val}, 'msg': f'GroupBy over tuple-valued labels: the groups hold {allm}, the entries are {sorted(ids)}'})
+    except Exception as e:
+        problems.append({'desc': {'values': val}, 'msg': 'GroupBy by a tuple-valued field raised ' + exc_name(e) + ': ' + str(e)[:150]})
     return problems
